@@ -8,7 +8,7 @@ Oracle : online automaton per boundary - create(k): k not live and no live key w
          anything that is not one of the five event types (or the topology probe) is reported; after
          on_error() the boundary is closed (an erroring stream owes no completions).
 """
-from ..common import Check, Outcome, bootstrap, with_prelude, prelude_tags, shrink_prelude, PRELUDE_TAGS
+from ..common import Check, Outcome, bootstrap, with_prelude, prelude_tags, shrink_prelude, PRELUDE_TAGS, PRELUDE_RULE
 from .. import gen, progs, model
 from ..muxmon import Monitor
 
@@ -40,6 +40,7 @@ class C03(Check):
             'arbitrary operators (incl. the multiplexed-only ones), window <,=,> stride, filters that empty a group, take(0); inputs of length 0, 1, shorter than a window, and '
             'long. The automaton runs on EVERY MuxObservable subscription of the run (10-40 boundaries per program). non-trivial = >= 2 nested key-producing operators or an '
             'empty / single-item source with at least one key-producing operator; distinct = hash of the case')
+    RULE += PRELUDE_RULE
     ASSUMPTIONS = ['no user function raises (item-level errors are C13); an unhandled error closes the boundary',
                    'events after a boundary received on_error / on_completed are invisible to the subscriber (RxPY AutoDetachObserver) and are not judged']
     ANCHORS = ['rxsci/data/roll.py', 'rxsci/data/split.py', 'rxsci/data/time_split.py', 'rxsci/operators/group_by.py', 'rxsci/operators/tee_map.py',
